@@ -1893,7 +1893,64 @@ def slice_sort_by_key(m, ref, args, t, sp):
     return _sorted_model(m, els, src, sp)
 
 
+def slice_select_nth_by(m, ref, args, t, sp):
+    """[T]::select_nth_unstable_by(k, cmp) under its documented contract: afterwards the element at k is
+    the k-th order statistic, everything before it is <= and everything after it >= — in an UNSPECIFIED
+    order (the other positions are not order statistics)."""
+    els, _ = slice_elems(m, args[0])
+    src = [m.read_loc(c, p) for c, p in els]
+    k = args[1]
+    if not isinstance(k, int) or isinstance(k, bool):
+        raise Unsupported("select_nth_unstable_by with a symbolic index")
+    if not (0 <= k < len(src)):
+        raise PathEnd("panic", {"kind": "select_nth_unstable_by index out of bounds", "span": sp, "stack": list(m.stack)})
+    if not all(is_float(x) for x in src):
+        raise Unsupported("select_nth_unstable_by on a non-float slice")
+    if _maybe_nan(m, src):
+        raise Unsupported("select_nth_unstable_by with elements that may be NaN")
+    clo = args[2]
+
+    def cmp2(a, b):
+        ca, cb = Cell(a), Cell(b)
+        return m.call_closure(clo, [VRef(ca, (), False), VRef(cb, (), False)], sp)
+    if _probe_order(m, cmp2, sp) != "asc":
+        raise Unsupported("select_nth_unstable_by with a comparator that is not recognised as the ascending numeric order")
+    if len(src) == 1:
+        return VOpaque("?", m.new_name("select_nth"))
+    m.sorted_sets = getattr(m, "sorted_sets", {})
+    tag = None
+    for t0, s0 in m.sorted_sets.items():
+        if s0 == list(src):
+            tag = t0
+    if tag is None:
+        tag = "sorted%d" % (len(m.sorted_sets) + 1)
+    m.sorted_sets[tag] = list(src)
+    kth = ("fn", "sorted", tag, k) + tuple(src)
+    outs = []
+    for i in range(len(src)):
+        if i == k:
+            outs.append(kth)
+        elif (i < k and k == 1) or (i > k and k == len(src) - 2):
+            outs.append(("fn", "sorted", tag, i) + tuple(src))     # a part of one element is determined
+        else:
+            # some element of the lower (upper) part: which one is unspecified
+            outs.append(("fn", "unspecified_order", tag, i, k) + tuple(src))
+    try:
+        for i, v in enumerate(outs):
+            m.order.set_nan(v, False)
+            if i < k:
+                m.order.assume("Le", v, kth, True)
+            elif i > k:
+                m.order.assume("Le", kth, v, True)
+    except Infeasible:
+        raise PathEnd("infeasible")
+    for (c, p_), v in zip(els, outs):
+        m.write_loc(c, p_, v, sp)
+    return VOpaque("?", m.new_name("select_nth"))
+
+
 for _p in ("core::slice::<impl [T]>::", "alloc::slice::<impl [T]>::", "std::slice::<impl [T]>::"):
+    BY_NAME[_p + "select_nth_unstable_by"] = slice_select_nth_by
     for _n in ("sort_by", "sort_unstable_by"):
         BY_NAME[_p + _n] = slice_sort_by
     for _n in ("sort_by_key", "sort_unstable_by_key", "sort_by_cached_key"):
